@@ -279,6 +279,17 @@ func Corpus() []CorpusScenario {
 				creates(ing("ns1", "ing2", nil, rule("b.example", world.IngPath{Path: "/", Type: "Prefix", Service: "authsvc", PortNum: 8000}))),
 			},
 		},
+		{
+			// the default host with ssl-passthrough whose root path has no backend (redirect-to):
+			// `use_backend` of listen _front__tls was written without a name
+			Name: "17-default-host-passthrough-root-without-backend",
+			Opt:  Opt{},
+			H: [][]pipeline.Change{
+				creates(svc("ns1", "svc1"), EndpointsRef("ns1", "svc1", "http", 8080, []string{"10.1.0.1"}, nil, 0),
+					ing("ns1", "ing1", map[string]string{"ssl-passthrough": "true", "redirect-to": "http://other.example/x"}, rule("", pth("/", "svc1"))),
+					ing("ns1", "ing2", nil, rule("a.example", pth("/", "svc1")))),
+			},
+		},
 	}
 }
 
